@@ -1,7 +1,9 @@
 """Reference interpreter for the supported subset of the Amazon States Language,
 written from the specification (https://states-language.net/spec.html), not from
 the implementation.  Used as the oracle of C01 (and by C04/C15 for expected
-outcomes).  Error handling (Retry/Catch) is deliberately absent: C07's oracle.
+outcomes).  Retry is deliberately absent (C07's oracle); Catch is honoured only when run(..., catch=True)
+(nested fan-out generator): first matching catcher, Error Output {Error, Cause} placed by the catcher's ResultPath
+into the state's raw input, States.ALL matching everything but the unrecoverable States.Runtime family.
 
 run(asl, data, ctx, task) -> ("SUCCEEDED", output) | ("FAILED", error_name)
 `task(resource, effective_input)` -> ("ok", value) | ("err", name)
@@ -100,11 +102,39 @@ def _f(state, name, default="$"):
     return state[name] if name in state else default
 
 
+CATCH = [False]
+UNRECOVERABLE = ("States.Runtime", "States.ResultPathMatchFailure", "States.ParameterPathFailure", "States.IntrinsicFailure",
+                 "States.DataLimitExceeded", "States.ExecutionTimeout", "Task.Terminated")
+CAUSE = "<cause>"
+
+
 def run_states(sm, data, ctx, task, depth=0):
     """Run one (sub) state machine to its end; returns the output or raises Failure."""
     name = sm["StartAt"]
     for _ in range(50):
         st = sm["States"][name]
+        if CATCH[0] and st.get("Catch") and st["Type"] in ("Task", "Parallel", "Map"):
+            try:
+                one = {"StartAt": name, "States": {name: dict(st, End=True)}}
+                one["States"][name].pop("Next", None); one["States"][name].pop("Catch", None)
+                out = run_states(one, data, ctx, task, depth)
+            except Failure as f:
+                if f.error in UNRECOVERABLE:
+                    raise
+                nxt = None
+                for c in st["Catch"]:
+                    if f.error in c["ErrorEquals"] or "States.ALL" in c["ErrorEquals"]:
+                        nxt = c; break
+                if nxt is None:
+                    raise
+                data = put_path(data, _f(nxt, "ResultPath"), {"Error": f.error, "Cause": CAUSE})
+                name = nxt["Next"]
+                continue
+            if st.get("End"):
+                return out
+            data = out
+            name = st["Next"]
+            continue
         t = st["Type"]
         if t == "Fail":
             raise Failure(st.get("Error", "Unspecified"))
@@ -186,8 +216,20 @@ def choice_rule(rule, doc, ctx):
     raise ValueError("operator outside the C01 corpus: %r" % rule)
 
 
-def run(asl, data, ctx, task):
+def run(asl, data, ctx, task, catch=False):
+    CATCH[0] = catch
     try:
         return ("SUCCEEDED", run_states(asl, data, ctx, task))
     except Failure as f:
         return ("FAILED", f.error)
+    finally:
+        CATCH[0] = False
+
+
+def strip_cause(v):
+    """A copy of a JSON value with every "Cause" member's text replaced (its wording is implementation-defined)."""
+    if isinstance(v, dict):
+        return {k: (CAUSE if k == "Cause" else strip_cause(x)) for k, x in v.items()}
+    if isinstance(v, list):
+        return [strip_cause(x) for x in v]
+    return v
